@@ -5,12 +5,11 @@ C09 (order part)  Sorting happens under one total value order.
 gives doubles (`F64.ocmp`).  The sort itself (permutation / sortedness / tie-break) is in C09.lean;
 this file is only about the comparator.
 
-Domain `Value.inD fl` (a decidable predicate, AgProofs/Lemmas/ValueOrder.lean): no objects (the
-real `Ord` on `im::HashMap` follows hash iteration order; the model's object order is a stand-in),
-and either no floats at all (`fl = false`, integers unrestricted) or floats allowed and every
-integer within ±2^53 (`fl = true`).  Arrays are members: any two arrays compare `Equal`, which
-keeps the relation a total preorder (it only stops it from separating them — see
-`C09_arrays_all_equal`).
+Domain `Value.inD fl` (a decidable predicate, AgProofs/Lemmas/ValueOrder.lean): either no floats
+at all (`fl = false`, integers unrestricted) or floats allowed and every integer within ±2^53
+(`fl = true`) — recursively through arrays and objects.  Arrays compare element by element
+(`cmpL`), objects by their key-sorted entries (`cmpKV`), as the code does since /repo 1d8641f /
+3043a84; orientation and reflexivity hold for ALL values, transitivity on the domain.
 -/
 import AgProofs.Lemmas.ValueOrder
 
@@ -53,10 +52,15 @@ example : val? (fin false two52 (-52)) = some (1 : Dyadic) := by decide
 
 /-! ### `Value::cmp` -/
 
-/-- the full statement: `cmp` is a total preorder on all object-free values -/
+/-- swapping the arguments swaps the outcome — all values, arrays and objects included (full) -/
+theorem C09_cmp_oriented (a b : Value) : (cmp a b).swap = cmp b a := cmp_swap a b
+
+/-- reflexive — all values (full) -/
+theorem C09_cmp_refl (a : Value) : cmp a a = .eq := cmp_self a
+
+/-- the full statement: `cmp` is transitive (hence a total preorder) on all values -/
 def C09_cmp_total_preorder_full : Prop :=
-  ∀ a b c : Value, a.rank ≠ 7 → b.rank ≠ 7 → c.rank ≠ 7 →
-    (cmp a b).isLE → (cmp b c).isLE → (cmp a c).isLE
+  ∀ a b c : Value, (cmp a b).isLE → (cmp b c).isLE → (cmp a c).isLE
 
 /-- … which is false of the code as it stands: beyond 2^53 two different integers are both
 `Equal` to the same double (`Int` vs `Float` is compared after `i as f64`), so `cmp` is not
@@ -64,18 +68,17 @@ transitive: 2^53+1 ≤ 2^53 (as double) ≤ 2^53 but 2^53+1 > 2^53. -/
 theorem C09_cmp_total_preorder_not_full : ¬ C09_cmp_total_preorder_full := by
   intro h
   have := h (int 9007199254740993) (float (fin false two52 1)) (int 9007199254740992)
-    (by decide) (by decide) (by decide)
   revert this
   simp only [cmp]
   decide
 
-/-- On the domain `inD fl`, `cmp` is an oriented, transitive comparison = a total preorder
-(`Std.TransCmp` on the subtype). -/
+/-- On the domain `inD fl` — nested arrays and objects included — `cmp` is an oriented,
+transitive comparison = a total preorder (`Std.TransCmp` on the subtype). -/
 theorem C09_cmp_total_preorder_partial (fl : Bool) :
     Std.TransCmp (fun (a b : {v : Value // inD fl v = true}) => cmp a.1 b.1) where
   eq_swap := by
     intro a b
-    rw [← cmp_swap b.1 a.1 (fun h => rank_ne_obj_of_inD a.2 h.2)]
+    rw [← cmp_swap b.1 a.1]
   isLE_trans := by
     intro a b c
     exact cmp_isLE_trans a.2 b.2 c.2
@@ -88,24 +91,20 @@ theorem C09_cmp_laws (fl : Bool) {a b c : Value} (ha : inD fl a) (hb : inD fl b)
     ((cmp a b).isLE → (cmp b c).isLE → (cmp a c).isLE) ∧
     (cmp a b = .lt → cmp b c = .lt → cmp a c = .lt) ∧
     (cmp a b = .eq → cmp b c = .eq → cmp a c = .eq) := by
-  have inst := C09_cmp_total_preorder_partial fl
-  let A : {v : Value // inD fl v = true} := ⟨a, ha⟩
-  let B : {v : Value // inD fl v = true} := ⟨b, hb⟩
-  let C : {v : Value // inD fl v = true} := ⟨c, hc⟩
-  refine ⟨?_, ?_, ?_, ?_, ?_, ?_⟩
-  · exact Std.ReflCmp.compare_self (cmp := fun (a b : {v : Value // inD fl v = true}) => cmp a.1 b.1) (a := A)
-  · exact Std.OrientedCmp.gt_iff_lt (cmp := fun (a b : {v : Value // inD fl v = true}) => cmp a.1 b.1) (a := A) (b := B)
-  · have := cmp_swap a b (fun h => rank_ne_obj_of_inD ha h.1)
-    rw [← this]; cases cmp a b <;> simp
-  · exact cmp_isLE_trans ha hb hc
-  · exact Std.TransCmp.lt_trans (cmp := fun (a b : {v : Value // inD fl v = true}) => cmp a.1 b.1) (a := A) (b := B) (c := C)
-  · exact Std.TransCmp.eq_trans (cmp := fun (a b : {v : Value // inD fl v = true}) => cmp a.1 b.1) (a := A) (b := B) (c := C)
+  have T := cmp_transOK fl a b c ha hb hc
+  have hsw := cmp_swap a b
+  refine ⟨cmp_self a, ?_, ?_, T.isLE, T.ll, T.ee⟩
+  · rw [← hsw]; cases cmp a b <;> simp
+  · rw [← hsw]; cases cmp a b <;> simp
 
-/-- non-vacuity: the domain contains every kind of scalar, mixed ints and floats, and arrays -/
+/-- non-vacuity: the domain contains every kind of scalar, mixed ints and floats, nested arrays
+and objects -/
 example : inD true .none ∧ inD true (.bool true) ∧ inD true (.int (-9007199254740992)) ∧
     inD true (.float (fin false two52 (-53))) ∧ inD true (.float nan) ∧ inD true (.str "a") ∧
-    inD true (.date 0) ∧ inD true (.dur 1) ∧ inD true (.arr [.int 1]) ∧
-    inD false (.int 9223372036854775807) := by decide
+    inD true (.date 0) ∧ inD true (.dur 1) ∧ inD true (.arr [.int 1, .arr [.float nan]]) ∧
+    inD true (.obj [("k", .arr [.int 2]), ("l", .obj [])]) ∧
+    inD false (.int 9223372036854775807) := by
+  simp [inD, inDL, inDKV, two53]
 
 /-- `rank` order: None < Bool < number < Str < DateTime < Duration < Array < Obj (all values) -/
 theorem C09_cmp_rank (a b : Value) (h : a.rank < b.rank) : cmp a b = .lt ∧ cmp b a = .gt :=
@@ -143,8 +142,34 @@ theorem C09_cmp_dates (a b : Int) : cmp (date a) (date b) = compare a b ∧
 theorem C09_none_smallest (b : Value) : cmp .none b ≠ .gt ∧ (cmp .none b = .eq ↔ b.rank = 0) := by
   cases b <;> simp [cmp, rank] <;> decide
 
-/-- any two arrays are `Equal`: the order does not separate them (so a sort tie-break cannot) -/
-theorem C09_arrays_all_equal (a b : List Value) : cmp (arr a) (arr b) = .eq := by
-  simp [cmp, rank]
+/-- arrays are ordered by content: element by element, a proper prefix is smaller
+(`Vec<Value>::cmp`) -/
+theorem C09_arrays_by_content :
+    (∀ a b : List Value, cmp (arr a) (arr b) = cmpL a b) ∧
+    cmpL [] [] = .eq ∧ (∀ y ys, cmpL [] (y :: ys) = .lt) ∧ (∀ x xs, cmpL (x :: xs) [] = .gt) ∧
+    (∀ x y xs ys, cmpL (x :: xs) (y :: ys) = (cmp x y).then (cmpL xs ys)) :=
+  ⟨cmp_arr_arr, cmpL_nil_nil, cmpL_nil_cons, cmpL_cons_nil, cmpL_cons_cons⟩
+
+/-- so two arrays are `Equal` only if they have the same length and `Equal` elements — the sort
+tie-break can separate them -/
+theorem C09_arrays_equal_iff (x y : Value) (xs ys : List Value) :
+    (cmp (arr (x :: xs)) (arr (y :: ys)) = .eq ↔ cmp x y = .eq ∧ cmp (arr xs) (arr ys) = .eq) ∧
+    cmp (arr []) (arr (y :: ys)) = .lt ∧ cmp (arr (x :: xs)) (arr []) = .gt := by
+  simp [cmp_arr_arr, cmpL_cons_cons, cmpL_nil_cons, cmpL_cons_nil]
+
+example : cmp (arr [int 1, int 2]) (arr [int 1, int 3]) = .lt ∧
+    cmp (arr [int 1]) (arr [int 1, int 0]) = .lt ∧ cmp (arr [int 2]) (arr [int 1, int 9]) = .gt := by
+  simp only [cmp_arr_arr, cmpL_cons_cons, cmpL_nil_cons, cmpL_nil_nil, cmp_int_int]
+  decide
+
+/-- objects are ordered by their key-sorted entries: lexicographically as (key, value) pairs, key
+first by string order, then value by `cmp`; a proper prefix is smaller
+(`l.iter().sorted().cmp(r.iter().sorted())`; the model's payload IS the key-sorted entry list) -/
+theorem C09_objects_by_sorted_entries :
+    (∀ a b : List (String × Value), cmp (obj a) (obj b) = cmpKV a b) ∧
+    cmpKV [] [] = .eq ∧ (∀ y ys, cmpKV [] (y :: ys) = .lt) ∧ (∀ x xs, cmpKV (x :: xs) [] = .gt) ∧
+    (∀ k l x y xs ys, cmpKV ((k, x) :: xs) ((l, y) :: ys) =
+      (compare k l).then ((cmp x y).then (cmpKV xs ys))) :=
+  ⟨cmp_obj_obj, cmpKV_nil_nil, cmpKV_nil_cons, cmpKV_cons_nil, cmpKV_cons_cons⟩
 
 end Ag.C09
